@@ -143,6 +143,7 @@ def run(rep, props, replay=None):
         monitors(rep, rng, runq, todo, full, data, comps, grids, expansions, normalize, S, nus, cs, exp_kind, centred, opts, key, replay_d)
     irregular_wellformed(rep, rng)
     expansion_defaults(rep, rng)
+    unit_monitor(rep, np.random.default_rng([C.seed(), 4, 7]))
     res = runq.run()
     seen = set()
     for t, what, key, opts, rp, td in todo:
@@ -320,6 +321,46 @@ def expansion_defaults(rep, rng):
                           "(the fit differs from the fit with the defaults spelled out): a component's expansion depends on the others'",
                           {"expansions": short, "explicit": explicit, "eigenvalues_short": la.tolist(), "eigenvalues_explicit": lb.tolist(),
                            "values": [C.hexf(c.values) for c in comps]})
+
+
+def unit_monitor(rep, rng):
+    """The same multivariate curves in small / large units (times a power of two: exact): the eigenproblem of (block-diagonal
+    Gram) x (score covariance) is homogeneous, so eigenvalues scale with the square of the factor and eigenfunctions do not change."""
+    n = 12
+    latent = np.round(rng.normal(size=(n, 3)) * np.array([2.0, 1.0, 0.5]) * 8) / 8
+    parts = [component(rng, n, k, sc, latent) for k, sc in (("uniform", 1.0), ("nonuniform", 3.0))]
+    # (P-spline expansions only: with UFPCA expansions the univariate scores are PACE scores, regularised by the ABSOLUTE,
+    #  user-settable `tol` = 1e-4 — a documented parameter, so nothing is promised about units there)
+    for exp_kind, expansions in (("PSplines", [{"method": "PSplines", "n_segments": 3, "degree": 2, "penalty": 1.0}] * 2),):
+        def vals(f):
+            return [np.asarray((c.to_grid() if not hasattr(c, "values") else c).values, float) for c in f.eigenfunctions.data]
+        try:
+            f0 = fit_mfpca(fd.multivariate([fd.dense(x, np.asarray(d.values)) for d, x in parts]), expansions, 3, False)
+            l0, e0 = np.asarray(f0.eigenvalues, float), vals(f0)
+        except ModuleNotFoundError:
+            continue
+        except Exception as e:  # noqa: BLE001
+            rep.notes.append(f"unit monitor: reference MFPCA fit raised {type(e).__name__}"[:120])
+            continue
+        for ex in (-20, 16):
+            c = 2.0 ** ex
+            rep.case(("units", exp_kind, ex), kind=f"units/{exp_kind}")
+            try:
+                f1 = fit_mfpca(fd.multivariate([fd.dense(x, np.asarray(d.values) * c) for d, x in parts]), expansions, 3, False)
+                l1, e1 = np.asarray(f1.eigenvalues, float), vals(f1)
+            except ModuleNotFoundError:
+                continue
+            except Exception as e:  # noqa: BLE001
+                rep.violation(f"MFPCA.fit ({exp_kind} expansions) raised {type(e).__name__}: {e} on the same curves times 2^{ex}"[:300],
+                              {"expansions": expansions, "factor_exponent": ex, "values": [C.hexf(np.asarray(d.values)) for d, _ in parts]})
+                continue
+            ok = l1.shape == l0.shape and np.max(np.abs(l1 - c * c * l0)) <= 1e-6 * c * c * float(np.max(np.abs(l0))) and all(
+                a.shape == b.shape and np.all(np.isfinite(a)) and np.max(np.abs(np.abs(a) - np.abs(b))) <= 1e-5 * max(1.0, float(np.max(np.abs(b))))
+                for a, b in zip(e1, e0))
+            if not ok:
+                rep.violation(f"MFPCA ({exp_kind} expansions) on the same curves times 2^{ex}: eigenvalues {l1.tolist()} are not 2^{2 * ex} times "
+                              f"{l0.tolist()}, or the eigenfunctions change with the unit of the curves",
+                              {"expansions": expansions, "factor_exponent": ex, "values": [C.hexf(np.asarray(d.values)) for d, _ in parts]})
 
 
 def irregular_wellformed(rep, rng):
